@@ -111,7 +111,7 @@ fn s_observe(b: &SparseBuilder, r: &SRef) -> Option<String> {
 
 fn s_actions(r: &SRef) -> Vec<SAct> {
     let (n, u) = (r.next(), r.p.universe);
-    let mut idx = vec![0usize, 1, 2, n, n + 1, u, u + 1, usize::MAX];
+    let mut idx = vec![0usize, 1, 2, n, n.saturating_add(1), u, u.saturating_add(1), usize::MAX];
     if n > 0 {
         idx.push(n - 1);
     }
@@ -129,7 +129,7 @@ fn s_actions(r: &SRef) -> Vec<SAct> {
     }
     a.push(SAct::Extend(vec![]));
     a.push(SAct::Extend(vec![n]));
-    a.push(SAct::Extend(vec![n, n + 1]));
+    a.push(SAct::Extend(vec![n, n.saturating_add(1)]));
     a.push(SAct::Extend(vec![n, n]));
     if n > 0 {
         a.push(SAct::Extend(vec![n - 1, n]));
@@ -498,6 +498,16 @@ fn explore(ctx: &mut Ctx) {
                     ctx.count("sparse_parameter_sets", 1);
                     s_bfs(ctx, &SParams { universe, capacity, multiset }, depth);
                 }
+            }
+        }
+    }
+    // Universes near 2^63 .. 2^64 (wide low parts; the bucket arithmetic must not overflow).
+    for &(universe, capacity) in &[(usize::MAX, 1usize), (usize::MAX, 3), (usize::MAX - 1000, 2), ((1usize << 63) + 2, 1), ((1usize << 63) + (1 << 62), 3)] {
+        for multiset in [false, true] {
+            job += 1;
+            if ctx.mine_index(job) {
+                ctx.count("huge_universe_parameter_sets", 1);
+                s_bfs(ctx, &SParams { universe, capacity, multiset }, depth.min(4));
             }
         }
     }
